@@ -243,7 +243,7 @@ func runC16(c *fw.Ctx) {
 	defer verifhook.Set(nil)
 
 	abandoned := false
-	rounds := c.Pick(6, 60)
+	rounds := c.Pick(8, 60)
 	gcounts := []int{2, 8, 32, 128}
 	interleavings := map[uint64]bool{}
 	for round := 0; round < rounds; round++ {
